@@ -314,3 +314,52 @@ fn run(ctx: &mut Ctx) {
         ctx.sample("nesting", json!(clip(&nested(1, 1000), 60)));
     }
 }
+
+/// Auxiliary workload for an undefined-behaviour interpreter (Miri): a few hundred small inputs
+/// through the same five entry points.  Not a registered check of its own; `./check C01 --tier
+/// thorough` runs it under `cargo +nightly miri` when available and records the outcome in the
+/// evidence as auxiliary information (Miri decides nothing about C01 by itself: quil-rs has no
+/// unsafe code; this only shows that no invalid memory access happens in dependencies on these
+/// inputs).
+pub static INFO_MIRI: PropInfo = PropInfo {
+    id: "C01M",
+    run: run_miri,
+    rule: "auxiliary Miri shard: ~300 small inputs (token sequences, boundary literals, grammar programs, mutants)",
+    assumptions: &[],
+    min_nontrivial: 1,
+    ..DEFAULT
+};
+
+fn run_miri(ctx: &mut Ctx) {
+    let budget = std::env::var("VERIF_MIRI_CASES").ok().and_then(|s| s.parse().ok()).unwrap_or(300usize);
+    let mut rng = ctx.rng(77);
+    let mut n = 0usize;
+    // a slice of the token-pair space
+    'outer: for a in TOKENS.iter().step_by(7) {
+        for b in TOKENS.iter().step_by(11) {
+            feed(ctx, &format!("{a} {b}"), "workload:miri-token-pair");
+            n += 1;
+            if n >= budget / 3 {
+                break 'outer;
+            }
+        }
+    }
+    for pos in POSITIONS.iter().step_by(3) {
+        for lit in BOUNDARY_LITERALS.iter().step_by(5) {
+            feed(ctx, &pos.replace("{}", lit), "workload:miri-boundary");
+            n += 1;
+            if n >= 2 * budget / 3 {
+                break;
+            }
+        }
+    }
+    while n < budget {
+        let text = {
+            let mut g = TextGen::new(&mut rng);
+            g.program(2)
+        };
+        let text = if rng.chance(1, 2) { mutate_bytes(&mut rng, &text) } else { text };
+        feed(ctx, &text, "workload:miri-grammar");
+        n += 1;
+    }
+}
